@@ -31,6 +31,10 @@ def run(ctx):
     ]
     physics.append(dict(label="bar/screening", dev="bar", current=2.0, field=0.5, adaptive=False, dt=dt,
                         solve_time=16 * dt - dt / 2, screening=True))
+    # tight screening tolerance: late Polyak iterates agree to many digits, so any "unchanged, skip the refresh" short-cut
+    # leaves solver state behind that a saved frame does not carry
+    physics.append(dict(label="bar/screening/tight", dev="bar", current=2.0, field=0.5, adaptive=False, dt=dt,
+                        solve_time=10 * dt - dt / 2, screening=True, screening_tol=1e-6))
     physics.append(dict(label="bar/unpinned/fixed", dev="bar", current=2.0, field=0.3, adaptive=False, dt=dt, terminal_psi=None,
                         solve_time=10 * dt - dt / 2))
     # time-dependent drives at a fixed step: the update reads the step size and the previous potential (dA/dt), so every
@@ -52,7 +56,7 @@ def run(ctx):
             jobs.append(("call", dict(module="harness.twin", func="solve_frames", args=dict(ph, **rc))))
             fam.append(ph["label"])
     # process history: the same physics observed after OTHER simulations ran in the same process on the same mesh object
-    for ph in physics[:4]:
+    for ph in [p_ for p_ in physics if p_["label"] in ("bar/static/fixed", "bar/adaptive", "bar/screening", "bar/unpinned/fixed")]:
         other_psi = 0.0 if ph.get("terminal_psi", 0.0) is None else None
         jobs.append(("call", dict(module="harness.twin", func="solve_frames", args=dict(ph, k=2, prelude=[
             dict(terminal_psi=other_psi, solve_time=4 * dt, adaptive=False, dt=dt, screening=False),
@@ -73,6 +77,11 @@ def run(ctx):
                      seed_form=("reloaded" if s % 2 else "memory"))
             jobs.append(("call", dict(module="harness.twin", func="solve_frames", args=a)))
             fam.append(b2["label"])
+    b3 = next(ph for ph in physics if ph["label"] == "bar/screening/tight")
+    for s in ((3, 6) if ctx.quick else (2, 3, 5, 6, 8)):
+        a = dict(b3, k=1, split=[s * dt - dt / 2, (10 - s) * dt - dt / 2], seed_form=("reloaded" if s % 2 else "memory"))
+        jobs.append(("call", dict(module="harness.twin", func="solve_frames", args=a)))
+        fam.append(b3["label"])
     results = rf.replay_all(ctx, jobs)
     traces = []
     for ph in physics:
